@@ -292,13 +292,16 @@ def compile_sources(workdir, sources, infra, flags=(), exe="a.out"):
     return link(workdir, objs, infra, flags, exe)
 
 
-def run_exe(exe, env=None, timeout=900):
-    """Run an executable (env: extra environment, e.g. OMP_NUM_THREADS);
-    returns stdout+stderr; RunError on a non-zero exit status."""
+def run_exe(exe, env=None, timeout=900, args=()):
+    """Run an executable (env: extra environment, e.g. OMP_NUM_THREADS;
+    args: command-line arguments, the generated driver accepts the 1-based
+    number of the only case to run); returns stdout+stderr; RunError on a
+    non-zero exit status."""
     full = dict(os.environ)
     full.update(env or {})
     try:
-        res = subprocess.run([exe], cwd=os.path.dirname(exe), env=full,
+        res = subprocess.run([exe] + [str(a) for a in args],
+                             cwd=os.path.dirname(exe), env=full,
                              stdout=subprocess.PIPE,
                              stderr=subprocess.STDOUT,
                              text=True, errors="replace", timeout=timeout)
@@ -418,7 +421,15 @@ program lfric_driver
   procedure (partitioner_interface), pointer :: partitioner_ptr
   type(function_space_type), target  :: vs_w0, vs_w2, vs_w3, vs_wtheta
   type(function_space_type), pointer :: fs_w0, fs_w2, fs_w3, fs_wtheta
+  character(len=32) :: only_arg
+  integer :: only
 
+  ! optional argument: number of the only case to run (default: all)
+  only = 0
+  if (command_argument_count() >= 1) then
+    call get_command_argument(1, only_arg)
+    read(only_arg, *) only
+  end if
   ! unit-test constructor: 3x3 bi-periodic planar mesh
   global_mesh = global_mesh_base_type()
   global_mesh_ptr => global_mesh
@@ -440,12 +451,15 @@ program lfric_driver
 
 def driver_source(cases, element_order=0, nlayers=3):
     """Fortran driver program running the given cases one after the other
-    (see the module docstring for the case format)."""
+    (see the module docstring for the case format). The executable accepts
+    one optional argument: the 1-based number of the only case to run (used
+    to isolate a crashing case without recompiling)."""
     head = (_DRIVER_HEAD.replace("@NLAYERS@", str(nlayers))
             .replace("@ORDER@", str(element_order)))
     lines = [head]
-    for case in cases:
-        lines.append(f"  call drv_{case['name']}()")
+    for num, case in enumerate(cases):
+        lines.append(f"  if (only == 0 .or. only == {num + 1}) "
+                     f"call drv_{case['name']}()")
     lines.append("  write(*,'(A)') 'DRIVER-DONE'")
     lines.append("contains")
     for case in cases:
